@@ -160,7 +160,7 @@ def run(chk: Check) -> None:
     from .common import barrier_opens_when_empty
     barrier_opens_when_empty(chk, 'FWD-awaitable-result')
     from . import c05
-    c05.no_step_lost(chk)
+    c05.outcome_entered_before_pause_hooks(chk, 'FWD-resume')
     c05.pause_gate(chk)
     c05.pause_ladder(chk)
     c05.status_pairing(chk)
